@@ -342,7 +342,7 @@ fn collect_boards(c: &mut Collector, items: &[u64], what: &str) {
 fn collections(c: &mut Collector, rng: &mut Rng, a: &Args) {
     c.journal("collections");
     // squares: every length 0..=130 and the width boundaries, five content shapes each
-    let mut lens: Vec<usize> = (0..=130).collect();
+    let mut lens: Vec<usize> = if a.small { vec![0, 1, 2, 3, 7, 8, 63, 64, 65, 127, 128, 129] } else { (0..=130).collect() };
     lens.extend([255, 256, 257, 511, 512, 513, 1000, 65535, 65536, 65537]);
     for (k, &n) in lens.iter().enumerate() {
         if k as u64 % a.nshards != a.shard || (a.small && n > 300) {
@@ -370,7 +370,7 @@ fn collections(c: &mut Collector, rng: &mut Rng, a: &Args) {
         collect_squares(c, &v, "few distinct squares");
     }
     // boards: structured histories, where item k relates to the union so far
-    let rounds = if a.small { 150 } else if a.tier == "thorough" { 400_000 } else { 60_000 } / a.nshards.max(1) as usize + 1;
+    let rounds = if a.small { 40 } else if a.tier == "thorough" { 400_000 } else { 60_000 } / a.nshards.max(1) as usize + 1;
     for r in 0..rounds {
         let n = match r % 4 {
             0 => rng.range(0, 4),
